@@ -292,8 +292,9 @@ def isolated_execute(spec_mod, check, trace, keep_log=False,
     mod = importlib.import_module(spec_mod)
     if hasattr(mod, 'pre_execute'):
         mod.pre_execute(check, trace)   # parent side; never calls the library
-    heavy = isinstance(trace, dict) and \
-        trace.get('population') in HEAVY_POPULATIONS
+    heavy = isinstance(trace, dict) and (
+        trace.get('population') in HEAVY_POPULATIONS or
+        str(trace.get('population')).endswith('sweep'))
     return in_child(_exec_job, spec_mod, check, trace, keep_log, want_sample,
                     timeout=CHILD_TIMEOUT * 8 if heavy else None)
 
@@ -584,7 +585,7 @@ def run_batches(spec_mod, check, tier, plan, workers=None, wall_cap=None,
     stall_limit = float(os.environ.get('VERIF_STALL_S', '30'))
 
     def limit_for(population):
-        return stall_limit * 4 if population == 'sweep' or \
+        return stall_limit * 4 if population.endswith('sweep') or \
             population in HEAVY_POPULATIONS else stall_limit
 
     try:
